@@ -309,6 +309,15 @@ struct HistRunner
                return;
             }
          }
+         // known finding postsolve-nonoptimal-basis-singular: with the simplifier on, a solve that ends INFEASIBLE / UNBOUNDED
+         // postsolves the basis of the reduced LP although the postsolve steps are written for optimal bases; the basis
+         // handed to the user can be exactly singular (hasBasis() true). Signature: simplifier on and status not OPTIMAL
+         if(knownKey("postsolve-nonoptimal-basis-singular") && sp.intParam(SoPlex::SIMPLIFIER) != SoPlex::SIMPLIFIER_OFF
+               && sp.status() != Solver::OPTIMAL)
+         {
+            e.count("excluded_known.postsolve-nonoptimal-basis-singular");
+            return;
+         }
          v.fail(where(what) + "the basis returned by a solve is singular (exact determinant 0)");
       }
    }
